@@ -17,7 +17,8 @@ func (c Config) Parse(source string, loc SourceLoc) (ASTNode, Error) {
 // Parse creates an AST from a sequence of tokens.
 // maxBlockDepth bounds the nesting of blocks. Compiling and rendering recurse once per level, and a
 // goroutine stack that grows past the runtime's limit ends the process; no recover can catch that.
-const maxBlockDepth = 100_000
+// The depth multiplies with that of nested include files (up to a hundred).
+const maxBlockDepth = 1000
 
 func (c Config) parseTokens(tokens []Token) (ASTNode, Error) { //nolint: gocyclo
 	// a stack of control tag state, for matching nested {%if}{%endif%} etc.
